@@ -57,7 +57,7 @@ class ContinuousMountainCar(
         min_position: Minimum position of the car (default: -1.2).
         max_position: Maximum position of the car (default: 0.6).
         max_speed: Maximum speed of the car (default: 0.07).
-        goal_position: Position at which the goal is reached (default: 0.5).
+        goal_position: Position at which the goal is reached (default: 0.45, as in Gymnasium).
         power: Power of the car's engine (default: 0.0015).
         dt: Time step for each action (default: 1.0).
         solver: Diffrax solver to use for ODE integration (default: Tsit5).
@@ -94,7 +94,7 @@ class ContinuousMountainCar(
         min_position: Float[ArrayLike, ""] = -1.2,
         max_position: Float[ArrayLike, ""] = 0.6,
         max_speed: Float[ArrayLike, ""] = 0.07,
-        goal_position: Float[ArrayLike, ""] = 0.5,
+        goal_position: Float[ArrayLike, ""] = 0.45,
         goal_velocity: Float[ArrayLike, ""] = 0.0,
         power: Float[ArrayLike, ""] = 0.0015,
         dt: Float[ArrayLike, ""] = 1.0,
